@@ -12,7 +12,7 @@ def replay(ctx, path):
         print("replay file names a broken obligation/correspondence (%s); re-running the whole check" % obj["broken"])
         CHECKS[ctx.prop](ctx)
         return ctx.finish()
-    if obj.get("engine") == "conc":     # C06/C07 concurrent part: overlay build + schedule replay
+    if str(obj.get("engine", "")).startswith("conc"):     # C06/C07 concurrent part: overlay build + schedule replay
         import importlib
         mod = importlib.import_module(__package__ + ".checks." + ctx.prop.lower())
         return getattr(mod, "replay_" + ctx.prop)(ctx, obj)
